@@ -33,7 +33,7 @@ const BUDGET: Duration = Duration::from_secs(2);
 const STUCK: Duration = Duration::from_secs(60);
 
 /// record types whose RDATA codec has no Lean model yet (must equal `Wire.unmodelled`)
-const UNMODELLED: &[u16] = &[25, 257, 65, 35, 64];
+const UNMODELLED: &[u16] = &[65, 64];
 
 /// every RecordType code hickory knows, plus a few it does not
 const ALL_TYPES: &[u16] = &[
@@ -157,6 +157,29 @@ fn show_rdata(d: &RData) -> String {
             hex(&x.fingerprint)
         ),
         RData::OPENPGPKEY(k) => format!("OPENPGPKEY:{}", hex(&k.public_key)),
+        RData::DNSSEC(DNSSECRData::KEY(k)) => format!(
+            "KEY:{}:{}:{}:{}",
+            k.flags(),
+            u8::from(k.protocol()),
+            u8::from(k.algorithm()),
+            hex(k.public_key())
+        ),
+        RData::CAA(c) => format!(
+            "CAA:{}:{}:{}:{}",
+            b(c.issuer_critical),
+            c.reserved_flags,
+            hex(c.tag.as_bytes()),
+            hex(&c.value)
+        ),
+        RData::NAPTR(n) => format!(
+            "NAPTR:{}:{}:{}:{}:{}:{}",
+            n.order,
+            n.preference,
+            hex(&n.flags),
+            hex(&n.services),
+            hex(&n.regexp),
+            name_tok(&n.replacement)
+        ),
         other => format!("X{}:?", u16::from(other.record_type())),
     }
 }
@@ -1263,6 +1286,27 @@ fn generate(o: &Opts, rec: &mut Recorder, w: &Watch) {
                 }
             };
             exec(&format!("rdata {t} {} 0", hex(&data)), rec, w);
+        }
+    }
+    if o.thorough() {
+        // every single-byte mutation (all 256 values at every position) of 40 small seed messages
+        let mut seeds = 0;
+        while seeds < 40 {
+            let buf = gen_message(&mut r, rec, seeds % 2 == 0, false);
+            if buf.len() > 110 || buf.len() < 30 {
+                continue;
+            }
+            seeds += 1;
+            for i in 0..buf.len() {
+                for v in 0..=255u8 {
+                    if v != buf[i] {
+                        let mut m = buf.clone();
+                        m[i] = v;
+                        rec.stat("gen.exhaustive-byte");
+                        exec(&format!("msg {}", hex(&m)), rec, w);
+                    }
+                }
+            }
         }
     }
     let n = o.n(2500, 150_000);
